@@ -1,6 +1,7 @@
 pub mod ctx;
 pub mod findings;
 pub mod par;
+pub mod memsource;
 pub mod checks;
 
 pub use ctx::{Ctx, Tier};
